@@ -28,6 +28,7 @@ META = {
 }
 META['bounds'].append("user program 'rejected': a duplicate type / unit declaration is rejected, then 6 products / quotients; scalars: inexact floats 0.1, 0.3, 0.7 on decimal and fraction amounts")
 META['bounds'].append('every unit paired with itself (113 pairs): same-unit quotients also in reference-less types')
+META['bounds'].append("user program 'same_prefix': two types with equal / long common names, product type declared in either factor order, 7 operations")
 
 
 def setup(mode):
